@@ -54,9 +54,12 @@ def prepare_scratch(repo, scratch):
     shutil.copytree(os.path.join(VERIF, "kani"), hdir)
     # mechanical extractions (closure bodies that cannot be called as functions), verbatim, from the ORIGINAL text
     for ex in props.EXTRACTS:
-        body, a, b = inject.extract_closure_body(os.path.join(repo, ex["file"]), ex["marker"])
+        if ex.get("kind") == "fn_tail":
+            body, a, b = inject.extract_fn_tail(os.path.join(repo, ex["file"]), ex["scopes"], ex["fn"], ex["marker"])
+        else:
+            body, a, b = inject.extract_closure_body(os.path.join(repo, ex["file"]), ex["marker"])
         with open(os.path.join(hdir, ex["out"]), "w") as f:
-            f.write("// extracted mechanically and verbatim from %s lines %d-%d (the body of the closure after `%s`)\n"
+            f.write("// extracted mechanically and verbatim from %s lines %d-%d (starting at `%s`)\n"
                     % (ex["file"], a, b, ex["marker"].strip()))
             f.write(ex["header"] + "\n" + "\n".join(body) + "\n}\n")
     injs = props.injections()
@@ -326,12 +329,21 @@ def cmd_check(pid, tier, repo, only, keep, jobs):
     t0 = time.time()
     P = props.PROPS[pid]
     seed = int(os.environ.get("VERIF_SEED", "0") or 0)
-    obs = [o for o in P["obligations"] if tier == "thorough" or o.get("tier", "quick") == "quick"]
+    # tier "experimental": obligations that are written but not (yet) known to finish; only run when named with --only
+    obs = [o for o in P["obligations"]
+           if (o.get("tier", "quick") == "quick" or (tier == "thorough" and o.get("tier") == "thorough")
+               or (only and o.get("tier") == "experimental"))]
     if only:
         obs = [o for o in obs if only in o["name"]]
     scratch = os.environ.get("VERIF_SCRATCH", "/var/tmp/weechess-verif.%s.%d" % (pid, os.getpid()))
     replay_dir = os.path.join(VERIF, "replays", pid)
     evidence_path = os.path.join(VERIF, "evidence", "%s.json" % pid)
+    if os.path.realpath(repo) != "/repo" or only:
+        # runs against a scratch copy (seeded changes, mutants) or partial runs (--only) must never overwrite the
+        # evidence of the registered check, which is about /repo and about all obligations of the tier
+        side = "/var/tmp/weechess-verif-side/%s" % (os.path.basename(os.path.realpath(repo).rstrip("/")) or "repo")
+        replay_dir = os.path.join(side, "replays", pid)
+        evidence_path = os.path.join(side, "evidence", "%s.json" % pid)
     os.makedirs(os.path.dirname(evidence_path), exist_ok=True)
     results = []
     verus_results = []
